@@ -439,4 +439,169 @@ theorem not_close_returns : ¬ close_returns := by
   rw [heq] at this
   simp [isInternal] at this
 
+
+/-- mutual exclusion: at most one handler goroutine is inside `forwardList.forward` -/
+def Excl (s : State) : Prop := ¬ (s.htcp.pc.isSome = true ∧ s.hunix.pc.isSome = true)
+
+theorem pcs_of_setH_queue (s : State) (n : Net) (q : List Fwd) :
+    (s.setH n { s.h n with queue := q }).htcp.pc = s.htcp.pc ∧
+    (s.setH n { s.h n with queue := q }).hunix.pc = s.hunix.pc := by
+  cases n <;> exact ⟨rfl, rfl⟩
+
+theorem emitWire_pcs (s : State) (e : Ev) :
+    (emitWire s e).htcp.pc = s.htcp.pc ∧ (emitWire s e).hunix.pc = s.hunix.pc := by
+  unfold emitWire; split <;> exact ⟨rfl, rfl⟩
+
+theorem putChan_pcs (s : State) (lid : Nat) (f : Fwd) :
+    (putChan s lid f).htcp.pc = s.htcp.pc ∧ (putChan s lid f).hunix.pc = s.hunix.pc := by
+  unfold putChan; split
+  · exact ⟨rfl, rfl⟩
+  · split <;> exact ⟨rfl, rfl⟩
+
+theorem closeChan_pcs (s : State) (lid : Nat) :
+    (closeChan s lid).htcp.pc = s.htcp.pc ∧ (closeChan s lid).hunix.pc = s.hunix.pc := by
+  unfold closeChan; split
+  · exact ⟨rfl, rfl⟩
+  · split <;> exact ⟨rfl, rfl⟩
+
+theorem closeAllChans_pcs (s : State) (es : List (Key × Nat)) :
+    (closeAllChans s es).htcp.pc = s.htcp.pc ∧ (closeAllChans s es).hunix.pc = s.hunix.pc := by
+  induction es generalizing s with
+  | nil => exact ⟨rfl, rfl⟩
+  | cons a t ih =>
+    obtain ⟨k, lid⟩ := a
+    simp only [closeAllChans]
+    have := ih (closeChan s lid)
+    have h2 := closeChan_pcs s lid
+    exact ⟨this.1.trans h2.1, this.2.trans h2.2⟩
+
+/-- unlocked: both pcs none -/
+theorem unlocked_pcs {s : State} (h : locked s = false) : s.htcp.pc = none ∧ s.hunix.pc = none := by
+  simp only [locked, Bool.or_eq_false_iff, Option.isSome_eq_false_iff, Option.isNone_iff_eq_none] at h
+  exact h
+
+theorem excl_of_same {s t : State} (he : Excl s) (h1 : t.htcp.pc = s.htcp.pc) (h2 : t.hunix.pc = s.hunix.pc) : Excl t := by
+  unfold Excl; rw [h1, h2]; exact he
+
+theorem excl_step {s s' : State} (a : Act) (he : Excl s) (h : next s a = some s') : Excl s' := by
+  cases a with
+  | listenCall c k d =>
+    simp only [next] at h
+    split at h
+    · cases h; exact excl_of_same he rfl rfl
+    · split at h <;> (cases h; exact excl_of_same he rfl rfl)
+  | fwdSend f =>
+    simp only [next] at h
+    split at h
+    · cases h
+    · split at h
+      · cases h; exact excl_of_same he (emitWire_pcs _ _).1 (emitWire_pcs _ _).2
+      · cases h; exact excl_of_same he (pcs_of_setH_queue _ _ _).1 (pcs_of_setH_queue _ _ _).2
+  | acceptCall c l =>
+    simp only [next] at h
+    split at h
+    · cases h
+    · cases h; exact excl_of_same he rfl rfl
+  | closeCall c l b =>
+    simp only [next] at h
+    split at h
+    · cases h
+    · cases h; exact excl_of_same he rfl rfl
+  | disconnect =>
+    simp only [next] at h
+    split at h
+    · cases h
+    · cases h; exact excl_of_same he rfl rfl
+  | addRun c =>
+    simp only [next] at h
+    split at h
+    · cases h
+    · split at h
+      · cases h
+      · cases h; exact excl_of_same he rfl rfl
+  | accRun c =>
+    simp only [next] at h
+    split at h
+    · cases h
+    · split at h
+      · cases h
+      · split at h
+        · split at h <;> (cases h; exact excl_of_same he rfl rfl)
+        · split at h
+          · cases h; exact excl_of_same he rfl rfl
+          · cases h
+  | closeRun c =>
+    simp only [next] at h
+    split at h
+    · cases h
+    · split at h
+      · cases h
+      · split at h
+        · cases h
+        · cases h
+          apply excl_of_same he
+          · split
+            · rfl
+            · exact (closeChan_pcs _ _).1
+          · split
+            · rfl
+            · exact (closeChan_pcs _ _).2
+  | closeAllRun =>
+    simp only [next] at h
+    split at h
+    · cases h
+    · cases h
+      exact excl_of_same he (closeAllChans_pcs _ _).1 (closeAllChans_pcs _ _).2
+  | hSend n =>
+    -- a handler leaves `forward`: its pc becomes none
+    simp only [next] at h
+    split at h
+    · cases h
+    · split at h
+      · cases h
+      · split at h
+        · cases h
+          intro ⟨h1, h2⟩
+          cases n <;> simp [emit, State.setH] at h1 h2
+        · split at h
+          · cases h
+            intro ⟨h1, h2⟩
+            have hp := putChan_pcs (s.setH n { queue := (s.h n).queue, pc := none }) ‹_› ‹_›
+            rw [hp.1] at h1; rw [hp.2] at h2
+            cases n <;> simp [State.setH] at h1 h2
+          · cases h
+  | hTake n =>
+    simp only [next] at h
+    split at h
+    · cases h
+    · cases h
+    · split at h
+      · cases h
+        exact excl_of_same he ((emitWire_pcs _ _).1.trans (pcs_of_setH_queue _ _ _).1)
+          ((emitWire_pcs _ _).2.trans (pcs_of_setH_queue _ _ _).2)
+      · split at h
+        · cases h
+        · rename_i hun
+          simp only [Bool.not_eq_true] at hun
+          obtain ⟨hp1, hp2⟩ := unlocked_pcs hun
+          split at h
+          · cases h
+            exact excl_of_same he ((emitWire_pcs _ _).1.trans (pcs_of_setH_queue _ _ _).1)
+              ((emitWire_pcs _ _).2.trans (pcs_of_setH_queue _ _ _).2)
+          · split at h
+            · cases h
+            · split at h
+              · cases h
+                exact excl_of_same he ((putChan_pcs _ _ _).1.trans (pcs_of_setH_queue _ _ _).1)
+                  ((putChan_pcs _ _ _).2.trans (pcs_of_setH_queue _ _ _).2)
+              · cases h
+                -- the mutex was free: after taking it exactly this handler is parked
+                intro ⟨h1, h2⟩
+                cases n <;> simp [State.setH, hp1, hp2] at h1 h2
+
+/-- **mutex_exclusive**: in every reachable state at most one goroutine is inside forwardList.forward -/
+theorem mutex_exclusive {s : State} (h : Reachable s) : Excl s :=
+  invariant_of_step Excl (by simp [Excl, init]) (fun _ a _ he hs => excl_step a he hs) s h
+
+
 end XC.C37
